@@ -10,6 +10,7 @@ import Nitime.Model.C17
 import Nitime.Lemmas.C17
 import Nitime.Generated.C17Ops
 import Nitime.Lemmas.C17Rate
+import Nitime.Lemmas.C17Check
 
 namespace Nitime.C17.Props
 open Nitime Nitime.C17 Nitime.C17.Lemmas
@@ -773,6 +774,183 @@ theorem collapse_rejected (s : State) (r : Ramp) (d : Int)
       simp only [step, hv, rampDispatch, rampOp, hr, shiftOp, fixed, Bool.false_eq_true, if_false, hb, if_true, hc,
         Bool.false_and]
 
+/-! ### the uniformity check as an exact integer predicate, for operands of every type -/
+
+/-- what `_convert_and_check_uniformity` hands back for an accepted 1-d operand: its values — the
+SAMPLES, whatever the type of the operand and whatever attributes it carries — and their exact
+common difference -/
+theorem check_ok_spec (u : TimeUnit) (self : List Int) (r : Ramp) (vs : List Int) (d : Int)
+    (h : checkOperand u self r = .ok (vs, d)) :
+    vs = convRamp u self r ∧ vs ≠ [] ∧ vs = affine (vs.headD 0) d vs.length := by
+  unfold checkOperand at h
+  split at h
+  · cases h
+  · rename_i v hv
+    injection h with h
+    injection h with h1 h2
+    subst h1 h2
+    exact ⟨hv.symm, by simp, by simp [affine_succ]⟩
+  · rename_i x y rest hv
+    cases hr : rampStep (x :: y :: rest) with
+    | error e => rw [hr] at h; cases h
+    | ok d' =>
+      rw [hr] at h
+      injection h with h
+      injection h with h1 h2
+      subst h1 h2
+      exact ⟨hv.symm, by simp, (rampStep_ok hr).1⟩
+
+/-- **accepted ⇔ exactly uniform**: the check accepts a 1-d operand iff it is not empty and its
+values are an affine list — no tolerance, no trust in the operand's type -/
+theorem check_accepts_iff_uniform (u : TimeUnit) (self : List Int) (r : Ramp) :
+    (∃ p, checkOperand u self r = .ok p) ↔
+      (convRamp u self r ≠ [] ∧
+        ∃ c d, convRamp u self r = affine c d (convRamp u self r).length) := by
+  unfold checkOperand
+  split
+  · rename_i hv
+    simp [hv]
+  · rename_i v hv
+    rw [hv]
+    refine ⟨fun _ => ⟨by simp, v, 0, by simp [affine_succ]⟩, fun _ => ⟨_, rfl⟩⟩
+  · rename_i x y rest hv
+    rw [hv]
+    constructor
+    · rintro ⟨p, hp⟩
+      cases hr : rampStep (x :: y :: rest) with
+      | error e => rw [hr] at hp; cases hp
+      | ok d => exact ⟨by simp, _, d, (rampStep_ok hr).1⟩
+    · rintro ⟨_, c, d, hcd⟩
+      have h2 : 2 ≤ (x :: y :: rest).length := by simp
+      have := rampStep_affine c d _ h2
+      rw [← hcd] at this
+      exact ⟨_, by rw [this]; rfl⟩
+
+/-- the type of the operand and the attributes it carries play no role: a `UniformTime`-typed operand
+is judged, added and subtracted by its samples -/
+theorem typed_operand_by_samples (s : State) (c : Int) (ps : List Int) :
+    checkOperand s.cur.unit s.cur.samples (.typed c ps) = checkOperand s.cur.unit s.cur.samples (.time ps) ∧
+    step fixed s (.addR (.typed c ps)) = step fixed s (.addR (.time ps)) ∧
+    step fixed s (.subR (.typed c ps)) = step fixed s (.subR (.time ps)) := ⟨rfl, rfl, rfl⟩
+
+/-- `step` runs exactly this check: refused by the check ⇒ the operation is refused with that error
+and nothing changes -/
+theorem step_refuses_what_check_refuses (s : State) (r : Ramp) (e : Err)
+    (h : checkOperand s.cur.unit s.cur.samples r = .error e) :
+    step fixed s (.addR r) = (s, some e) ∧ step fixed s (.subR r) = (s, some e) := by
+  unfold checkOperand at h
+  split at h
+  · rename_i hv
+    injection h with h
+    subst h
+    constructor <;> simp only [step, hv, rampDispatch, fixed, Bool.false_eq_true, if_false]
+  · cases h
+  · rename_i x y rest hv
+    cases hr : rampStep (x :: y :: rest) with
+    | ok d => rw [hr] at h; cases h
+    | error e' =>
+      rw [hr] at h
+      injection h with h
+      subst h
+      constructor <;> simp only [step, hv, rampDispatch, fixed, Bool.false_eq_true, if_false, rampOp, hr]
+
+/-- a 1-d operand of two or more elements is accepted by `+=` (`sgn = 1`) / `-=` (`sgn = -1`) iff it
+is EXACTLY uniform, has the length of the axis and does not cancel the sampling interval -/
+theorem ramp_accepted_iff {s : State} (h : Inv s) (sgn : Int) (al : Bool) (vals : List Int)
+    (h2 : 2 ≤ vals.length) :
+    (rampDispatch fixed s sgn al vals).2 = none ↔
+      ∃ d, vals = affine (vals.headD 0) d vals.length ∧ vals.length = s.cur.samples.length ∧
+        collapses (sget s.store s.cur.dt) (sgn * d) = false := by
+  match vals, h2 with
+  | x :: y :: rest, h2 =>
+    have hdisp : rampDispatch fixed s sgn al (x :: y :: rest) = rampOp fixed s sgn al (x :: y :: rest) := by
+      simp only [rampDispatch, fixed, Bool.false_eq_true, if_false]
+    rw [hdisp]
+    cases hr : rampStep (x :: y :: rest) with
+    | error e =>
+      have : rampOp fixed s sgn al (x :: y :: rest) = (s, some e) := by simp only [rampOp, hr]
+      rw [this]
+      constructor
+      · intro hn; cases hn
+      · rintro ⟨d, hd, _, _⟩
+        have := (rampStep_ok_iff _ d).mpr ⟨h2, hd⟩
+        rw [hr] at this
+        cases this
+    | ok d =>
+      have : rampOp fixed s sgn al (x :: y :: rest)
+          = shiftOp fixed s sgn (some (x :: y :: rest)) ((x :: y :: rest).headD 0) d := by
+        simp only [rampOp, hr, fixed, Bool.false_and, Bool.false_eq_true, if_false]
+      rw [this]
+      have hro := rampStep_ok hr
+      have hsp := shiftOp_fixed_spec s h sgn (some (x :: y :: rest)) ((x :: y :: rest).headD 0) d
+        (by intro vs hvs; cases hvs; exact hro.1) (by intro hn; cases hn)
+      rw [hsp.2.2.2.1]
+      constructor
+      · rintro ⟨hl, hc⟩
+        exact ⟨d, hro.1, hl _ rfl, hc⟩
+      · rintro ⟨d', hd', hl, hc⟩
+        have h' := (rampStep_ok_iff _ d').mpr ⟨h2, hd'⟩
+        rw [hr] at h'
+        injection h' with h'
+        subst h'
+        exact ⟨fun vs hvs => by cases hvs; exact hl, hc⟩
+
+/-- why the check must be exact: whatever attributes one would write, the sum / difference of a
+uniform axis and a NON-uniform operand of the same length is described by no `(t0, Δ)` -/
+theorem nonuniform_operand_never_describable {s : State} (h : Inv s) (sgn : Int) (hs : sgn = 1 ∨ sgn = -1)
+    (vals : List Int) (hl : vals.length = s.cur.samples.length)
+    (hne : ¬ ∃ c d, vals = affine c d vals.length) :
+    ¬ ∃ a b, List.zipWith (fun x v => x + sgn * v) s.cur.samples vals = affine a b s.cur.samples.length := by
+  rintro ⟨a, b, hab⟩
+  apply hne
+  have hsam := h.1.2.2.2.1
+  rw [hsam] at hab
+  simp only [affine_length] at hab
+  rw [← hl] at hab
+  exact (zip_uniform_iff _ _ sgn hs vals).mp ⟨a, b, hab⟩
+
+/-- VARIANT check with numpy's `isclose` tolerance: a ramp of ANY step `d`, |d| ≥ 10⁵ ps, with its
+last element off by 1 ps is taken for uniform — the exact check refuses it -/
+theorem tolerant_check_accepts_off_by_one (x d : Int) (hd : 100000 ≤ d.natAbs) :
+    rampStepTol [x, x + d, x + 2 * d + 1] = .ok d ∧
+    rampStep [x, x + d, x + 2 * d + 1] = .error .valueError := by
+  have e1 : x + d - x = d := by omega
+  have e2 : x + 2 * d + 1 - (x + d) = d + 1 := by omega
+  have e3 : d + 1 - d = 1 := by omega
+  constructor
+  · simp only [rampStepTol, diff, e1, e2, e3, List.all_cons, List.all_nil, Bool.and_true]
+    rw [if_pos]
+    simp only [decide_eq_true_eq]
+    show (1 : Int).natAbs * 100000000 ≤ 1 + 1000 * d.natAbs
+    simp only [Int.natAbs_one]
+    omega
+  · simp only [rampStep, diff, e1, e2, List.all_cons, List.all_nil, Bool.and_true]
+    rw [if_neg]
+    simp only [beq_iff_eq]
+    omega
+
+/-- the instance of the seeded change: `[5, 1000006, 2000005]` ps -/
+theorem tolerant_check_counterexample :
+    rampStepTol [5, 1000006, 2000005] = .ok 1000001 ∧
+    rampStep [5, 1000006, 2000005] = .error .valueError ∧
+    (step fixed (initState .ps 0 2 3) (.addR (.time [5, 1000006, 2000005]))).2 = some .valueError := by decide
+
+/-- VARIANT check that trusts the type: any `UniformTime`-typed operand of two or more elements is
+accepted with the interval its attribute claims, whatever its samples -/
+theorem trusting_check_accepts_anything (c : Int) (ps : List Int) (h : 2 ≤ ps.length) :
+    rampStepTrusting (.typed c ps) ps = .ok c := by
+  simp only [rampStepTrusting]
+  rw [if_neg (by omega)]
+
+/-- `u[[0,1,2,4,5,7]]` of the axis 1,3,…,15 (claimed interval 2): trusted by the variant, refused by
+the check of the code, and the operation leaves the axis as it was -/
+theorem trusting_check_counterexample :
+    rampStepTrusting (.typed 2 [1, 3, 5, 9, 11, 15]) [1, 3, 5, 9, 11, 15] = .ok 2 ∧
+    rampStep [1, 3, 5, 9, 11, 15] = .error .valueError ∧
+    step fixed (initState .ps 0 3 6) (.addR (.typed 2 [1, 3, 5, 9, 11, 15]))
+      = (initState .ps 0 3 6, some .valueError) :=
+  ⟨by decide, by decide, (step_refuses_what_check_refuses (initState .ps 0 3 6) _ _ (by decide)).1⟩
+
 /-! ### static tie: the op table of the model is the one the source states (translator artefact
 `Generated/C17Ops.lean`, regenerated from nitime/timeseries.py on every run) -/
 open Nitime.Generated.C17Ops in
@@ -787,7 +965,13 @@ theorem static_op_table :
     setitemAlwaysRaises = true ∧ imulRefusesZero = true ∧
     idivGuards = ["val == 0", "int(self.t0) % val", "int(self.sampling_interval) % val"] ∧
     iaddOrder = ["_convert_and_check_uniformity", "_refuse_collapse", "read-shift", "numpy-op", "_set_sampling"] ∧
-    isubOrder = iaddOrder ∧ oneElementIsShift = true ∧ lookupBothOrientations = true ∧ sliceCopies = true := by decide
+    isubOrder = iaddOrder ∧ oneElementIsShift = true ∧ lookupBothOrientations = true ∧ sliceCopies = true ∧
+    -- `checkOperand` / `rampStep`: the interval change of a 1-d operand is `dv[0]` of `np.diff(val)` and
+    -- nothing else (no attribute of the operand besides dtype / astype / ndim is read, no branch on its
+    -- type), and the breaks test is the exact `!=`
+    checkOperandAttrs = ["astype", "dtype", "ndim"] ∧ checkHasattr = ["_conversion_factor", "ndim"] ∧
+    checkIsinstance = [] ∧ checkDiffExpr = "np.diff(val)" ∧ checkBreaksExpr = "np.where(dv != dv[0])" ∧
+    checkIntervalSources = ["0", "dv[0]"] := by decide
 
 /-! ### non-vacuity -/
 /-- a concrete history through every kind of operation (ms axis, t0 = 1 ms, Δ = 2 ms, n = 4) -/
